@@ -99,7 +99,7 @@ func c03One(r *Run, in *instance) {
 			}
 		}
 	}
-	if len(slice) > 200 {
+	if len(slice) > 20000 {
 		r.Infra("%s: slice of constraints around the public inputs unexpectedly large (%d)", in.Name, len(slice))
 		return
 	}
@@ -122,6 +122,16 @@ func c03One(r *Run, in *instance) {
 					}
 				}
 			}
+			// a public value that differs from the packed limbs above bit 128 only
+			for _, j := range []int{0, 3} {
+				if j < len(vals) && vals[j].Honest != nil {
+					cr := &circuitReplay{Kind: "circuit", Wrapper: "fixed", Instance: in.Base, K: in.K, Expect: "accepted", Edits: []edit{
+						{Path: vals[j].Path, Set: new(big.Int).Add(vals[j].Honest, new(big.Int).Lsh(big.NewInt(1), 128)).String()}}}
+					if acc, _ := runCircuitReplay(cr, r.Repo); acc {
+						return &Violation{What: fmt.Sprintf("CircuitFixed accepts a second public value for the same inner proof and limbs (%s): public value %d + 2^128", kind, j), Replay: toMap(cr), Outcome: "real CircuitFixed (test.IsSolved) accepts the honest proof with this public value"}
+					}
+				}
+			}
 			// search a replayable counterexample: limbs congruent to the honest ones mod p
 			em := sym.NewEmitter()
 			em.Refined = true
@@ -132,6 +142,11 @@ func c03One(r *Run, in *instance) {
 				em.Assert(fmt.Sprintf("(= (mod %s %s) %s)", n, P, new(big.Int).Mod(l.Honest, P)))
 				diff = append(diff, fmt.Sprintf("(not (= %s %s))", n, l.Honest))
 				_ = i
+			}
+			for _, v := range vals {
+				if v.Honest != nil {
+					diff = append(diff, fmt.Sprintf("(not (= %s %s))", em.Ref(v.Atom), v.Honest))
+				}
 			}
 			em.Assert("(or " + strings.Join(diff, " ") + ")")
 			var names []string
